@@ -486,8 +486,10 @@ class VM:
             for key, kind, value in props:
                 key_str = self._to_property_key(key)
                 if kind == "get":
+                    obj._properties.pop(key_str, None)  # replaces a data property of that name
                     obj.define_getter(key_str, value)
                 elif kind == "set":
+                    obj._properties.pop(key_str, None)
                     obj.define_setter(key_str, value)
                 elif key_str == "__proto__" and kind == "init":
                     # __proto__ in object literal sets the prototype
@@ -496,6 +498,9 @@ class VM:
                     elif isinstance(value, JSObject):
                         obj._prototype = value
                 else:
+                    # a data property replaces an accessor of that name
+                    obj._getters.pop(key_str, None)
+                    obj._setters.pop(key_str, None)
                     obj.set(key_str, value)
             self.stack.append(obj)
 
